@@ -20,7 +20,7 @@ ID = "C09"
 PROPS_FILE = "Props/C09.v"
 IMPORTS = "From Verde Require Import Lib.QList Model.BlockReduce Model.Weights Model.BlockGeo."
 SHARD = 40
-RULE = ("\"no weights\" is passed alternately as None and as a tuple of None (one per component), a single weight array bare or as a 1-tuple; every case of every stream configures the estimator by one of five routes in fixed shares (one fifth each, cycling in generation "
+RULE = ("\one call with more points than a k-d tree query batch (130001 quick; 150000 and 250001 thorough: subsample to the model, numpy oracle over all points); a quarter of the random cases and 39 edge cases make 1-3 non-empty blocks all-zero or exactly cancelling in every component (reductions incl. np.max); \"no weights\" is passed alternately as None and as a tuple of None (one per component), a single weight array bare or as a 1-tuple; every case of every stream configures the estimator by one of five routes in fixed shares (one fifth each, cycling in generation "
         "order): constructor arguments; construction with deliberately different options followed by set_params(**all options); the same "
         "followed by plain attribute assignment of every option; sklearn.base.clone of a configured instance; construction with one or two "
         "options different (cycling over all options), one filter() call, then those options changed (set_params / assignment alternately) - the "
@@ -50,9 +50,11 @@ ASSUMPTIONS = [
     "results computed from float32 arrays are compared within relative 2^-20 (single precision), everything else within 2^-40; integer arrays hold values below 2^24 so that they are exact in every dtype used",
     "weights are non-negative with a positive sum in every block (numpy.average raises ZeroDivisionError otherwise); weights are given only with numpy.average (the other numpy reductions take no weights keyword)",
 ]
-TRUSTED = ["python harness harness/c09.py (generators, exact float -> dyadic transfer, verdict parsing)"]
+TRUSTED = ["python harness harness/c09.py (generators, exact float -> dyadic transfer, verdict parsing)",
+           "for the large cases only: the numpy floating-point oracle in harness/c09.py large_case (labels by floor division on the regular block grid, per-block reductions) - the Coq model sees a subsample of the positions"]
 
-REDS = {"RMean": "np.mean", "RMedian": "np.median", "RSum": "np.sum", "RMin": "np.min", "RAverage": "np.average"}
+REDS = {"RMean": "np.mean", "RMedian": "np.median", "RSum": "np.sum", "RMin": "np.min", "RAverage": "np.average",
+        "RMax": "np.max"}
 BAD = "(1,600)%Z"
 
 
@@ -412,7 +414,7 @@ def make_case(vd, red, coords, data, weights, kw, kind, expect_valid=True):
            "dtypes": [str(np.asarray(a).dtype) for a in list(coords) + list(data) + (list(weights) if weights is not None else [])],
            "layouts": kw.get("_layouts"), "instance_reused": bool(kw.get("_twice")),
            "weight_patterns": kw.get("_wpatterns"), "configured_by": mode, "config_step": step,
-           "weights_spelled": wspell}
+           "weights_spelled": wspell, "blocks_made_zero_or_cancelling": kw.get("_zero_blocks")}
     out = [obs[0]] + ([[a.tolist() for a in obs[1]], [a.tolist() for a in obs[2]]] if obs[0] == "ok" else list(obs[1:-1])) \
         + [{"get_params_unchanged": bool(obs[-1])}]
     return Case(inp, out, term, repro, kind, nontrivial=nontrivial)
@@ -562,7 +564,7 @@ def random_config(rnd, vd, i, weighted, kind=None):
     if weighted:
         red = "RAverage"
     else:
-        red = rnd.choice(["RMean", "RMedian", "RSum", "RMin", "RAverage", "RMedian", "RSum", "RMin"])
+        red = rnd.choice(["RMean", "RMedian", "RSum", "RMin", "RAverage", "RMedian", "RSum", "RMin", "RMax", "RSum"])
         if dt is not None and rnd.random() < 0.6:
             red = rnd.choice(["RMean", "RMedian", "RAverage"])
     if shape2d is not None:
@@ -574,6 +576,24 @@ def random_config(rnd, vd, i, weighted, kind=None):
         try:
             _, labels = vd.block_split(tuple(coords), **{k: kw[k] for k in ("spacing", "shape", "adjust", "region") if k in kw})
             _fix_weights(weights, [int(v) for v in np.ravel(labels)])
+        except Exception:
+            pass
+    if rnd.random() < 0.25:
+        # blocks whose members are all zero and blocks whose members cancel exactly, in every component: such a
+        # block is not empty and keeps its entry (value 0 for a sum)
+        try:
+            _, lab = vd.block_split(tuple(coords), **{k: kw[k] for k in ("spacing", "shape", "adjust", "region") if k in kw})
+            lab = np.ravel(lab)
+            chosen = rnd.sample(sorted(set(lab.tolist())), min(len(set(lab.tolist())), rnd.randint(1, 3)))
+            for b_ in chosen:
+                idx = np.flatnonzero(lab == b_)
+                zero = rnd.random() < 0.5
+                for j, dcomp in enumerate(data):
+                    flat = dcomp.reshape(-1)          # a view: the arrays are still C-contiguous here
+                    a_ = (j + 1) * (3 if dcomp.dtype.kind in "iu" or dcomp.dtype == np.float32 else 1.5)
+                    vals = [0] * idx.size if zero else [(a_ + k_ // 2) * (1 if k_ % 2 == 0 else -1) for k_ in range(idx.size - idx.size % 2)] + [0] * (idx.size % 2)
+                    flat[idx] = np.array(vals).astype(dcomp.dtype)
+            kw["_zero_blocks"] = [int(b_) for b_ in chosen]
         except Exception:
             pass
     if shape2d is not None and rnd.random() < 0.7:
@@ -666,6 +686,22 @@ def edge_cases(rnd, vd):
                   _wpatterns=list(combo))
         out.append(("RAverage", [e5, n5, dd[2] * 2 + 1], [dd[j] for j in range(len(combo))],
                     [pats[c].copy() * (1 if c in ("ones", "const") else j + 1) for j, c in enumerate(combo)], kw))
+    # non-empty blocks whose members are all zero (blocks 1 and 2) or cancel exactly (blocks 0 and 5), in every
+    # component: one value per non-empty block, for every reduction, unweighted and weighted, 1-3 components
+    z0 = A([1.5, -1.5, 0.0, 0.0, 0.0, 0.0, 3.0, 7.0, -2.0, 2.0, -2.0, 0.5, -0.5])
+    z1 = A([-4.0, 4.0, 0.0, 0.0, 0.0, 0.0, 1.0, 2.0, 5.0, 0.25, -0.25, 8.0, -8.0])
+    z2 = A([0.0, 0.0, 0.0, 0.0, 0.0, 0.0, -1.0, 6.0, 9.0, 1.0, 1.0, -1.0, -1.0])
+    wz = A([1.0, 2.0, 0.5, 3.0, 1.5, 4.0, 0.25, 0.75, 2.5, 1.25, 5.0, 3.5, 2.25])
+    for red in ["RSum", "RMean", "RMedian", "RMin", "RMax", "RAverage"]:
+        for ncomp in (1, 2, 3):
+            for center in (False, True):
+                kw = dict(spacing=1, region=(0, 3, 0, 2), center_coordinates=center, drop_coords=(ncomp != 2))
+                out.append((red, [e5, n5, dd[2] * 2 + 1], [z0, z1, z2][:ncomp], None, dict(kw)))
+                # every block sums to zero
+                out.append((red, [e5, n5], [z2 * 0, z0 * 0 + A([2.0, -2.0] + [0.0] * 11), z2 * 0][:ncomp], None, dict(kw)))
+    for ncomp in (1, 2, 3):
+        kw = dict(spacing=1, region=(0, 3, 0, 2), center_coordinates=bool(ncomp % 2), drop_coords=False)
+        out.append(("RAverage", [e5, n5, dd[2] * 2 + 1], [z0, z1, z2][:ncomp], [wz, wz[::-1].copy(), wz * 2][:ncomp], kw))
     # one object, two surveys: the instance first filters a cloud with another bounding box (shifted / larger /
     # smaller, by point count) and point count; region=None, so each call must infer its own region
     for npts in (12, 13, 14):
@@ -759,6 +795,67 @@ def geometry_cases(vd, tier):
     return out
 
 
+def large_case(vd, npts, red, kw, seed):
+    """one call with more points than a k-d tree query batch.  The Coq model sees a fixed subsample of positions
+    (first, last, every 997th, a run around every multiple of 100000) and checks their labels against the documented
+    grid; over ALL points a floating-point numpy oracle (floor division on the regular block grid; points within
+    2^-30 of an edge excluded) must give the same block populations as the observed labels, and the filter must
+    return one entry per occupied block with the oracle's values"""
+    rs = np.random.RandomState(seed)
+    w_, e_, s_, n_ = kw["region"]
+    # odd multiples of 1/8192: never on a block edge of the grids used
+    east = (np.floor(rs.uniform(w_, e_, npts) * 4096) + 0.5) / 4096
+    north = (np.floor(rs.uniform(s_, n_, npts) * 4096) + 0.5) / 4096
+    data = np.round(rs.uniform(-50, 50, npts) * 64) / 64
+    split_kw = {k: kw[k] for k in ("spacing", "shape", "adjust", "region") if k in kw}
+    blocks, labels = vd.block_split((east, north), **split_kw)
+    labels = np.asarray(labels)
+    ce, cn = np.ravel(blocks[0]), np.ravel(blocks[1])
+    oc, od = vd.BlockReduce(getattr(np, REDS[red][3:]), **kw).filter((east, north), data)
+    od = np.asarray(od, dtype=float)
+    # floating-point oracle: the regular grid spanned by the observed centres
+    xs, ys = np.unique(ce), np.unique(cn)
+    dx = (xs[1] - xs[0]) if xs.size > 1 else 1.0
+    dy = (ys[1] - ys[0]) if ys.size > 1 else 1.0
+    fx, fy = (east - (xs[0] - dx / 2)) / dx, (north - (ys[0] - dy / 2)) / dy
+    ix = np.clip(np.floor(fx).astype(int), 0, xs.size - 1)
+    iy = np.clip(np.floor(fy).astype(int), 0, ys.size - 1)
+    oracle = iy * xs.size + ix
+    safe = (np.abs(fx - np.round(fx)) > 2.0 ** -30) & (np.abs(fy - np.round(fy)) > 2.0 ** -30)
+    nb = ce.size
+    pops_ok = labels.shape == oracle.shape and np.array_equal(np.bincount(labels[safe], minlength=nb), np.bincount(oracle[safe], minlength=nb))
+    occ = np.flatnonzero(np.bincount(oracle, minlength=nb))
+    count_ok = od.shape == (occ.size,) and all(np.asarray(c).shape == (occ.size,) for c in oc)
+    values_ok = False
+    if count_ok:
+        fn = getattr(np, REDS[red][3:])
+        order = np.argsort(oracle, kind="stable")
+        cuts = np.flatnonzero(np.diff(oracle[order])) + 1
+        ref = np.array([fn(g) for g in np.split(data[order], cuts)])
+        values_ok = bool(np.allclose(od, ref, rtol=1e-9, atol=1e-9))
+        if kw.get("center_coordinates"):
+            values_ok = values_ok and np.array_equal(oc[0], ce[occ]) and np.array_equal(oc[1], cn[occ])
+    oracle_ok = bool(pops_ok and count_ok and values_ok)
+    pos = {0, npts - 1} | set(range(0, npts, 997))
+    for m in range(100000, npts + 1, 100000):
+        pos |= {p_ for p_ in range(m - 3, m + 4) if 0 <= p_ < npts}
+    pos = sorted(pos)
+    kwc = {k: v for k, v in kw.items() if not k.startswith("_")}
+    term = "c09_large_case %s %s (%s, %s) %s %s" % (
+        geo_term(kwc, [east, north], True), _cdll([east[pos], north[pos]]), _cdl(ce), _cdl(cn),
+        clist([cZ(int(v)) for v in labels[pos]]), cbool(oracle_ok))
+    repro = ("import numpy as np, verde; rs = np.random.RandomState(%d); n = %d; "
+             "east = (np.floor(rs.uniform(%r, %r, n) * 4096) + 0.5) / 4096; north = (np.floor(rs.uniform(%r, %r, n) * 4096) + 0.5) / 4096; "
+             "data = np.round(rs.uniform(-50, 50, n) * 64) / 64; b, l = verde.block_split((east, north), **%r); "
+             "print('labels of the last 5 points:', l[-5:], 'populations:', np.bincount(l)); "
+             "print(verde.BlockReduce(%s, **%r).filter((east, north), data))" % (seed, npts, w_, e_, s_, n_, split_kw, REDS[red], kwc))
+    inp = {"large": True, "points": npts, "numpy_seed": seed, "reduction": REDS[red], "kwargs": kwc,
+           "positions_given_to_the_model": len(pos)}
+    out = ["ok", {"entries": int(od.size), "populations_match_oracle": bool(pops_ok), "entry_count_ok": bool(count_ok),
+                  "values_match_oracle": bool(values_ok), "labels_tail": [int(v) for v in labels[-5:]]}]
+    return Case(inp, out, term, repro, "large", nontrivial=True)
+
+
 def malformed(rnd, vd):
     out = []
     A = np.array
@@ -786,6 +883,12 @@ def generate(tier, seed):
     for cfg in malformed(rnd, vd):
         cases.append(make_case(vd, *cfg, kind="malformed", expect_valid=False))
     cases.extend(geometry_cases(vd, tier))
+    # more points than one k-d tree query batch, count not a multiple of the batch size
+    if tier == "quick":
+        cases.append(large_case(vd, 130001, "RMean", dict(spacing=2.5, region=(0.0, 10.0, -5.0, 5.0), center_coordinates=True), seed % 1000))
+    else:
+        cases.append(large_case(vd, 150000, "RMedian", dict(spacing=2.5, region=(0.0, 10.0, -5.0, 5.0), center_coordinates=True), seed % 1000))
+        cases.append(large_case(vd, 250001, "RSum", dict(shape=(3, 5), region=(-4.0, 11.0, 2.0, 8.0)), seed % 1000 + 1))
     n_rand = 360 if tier == "quick" else 4200
     for i in range(n_rand):
         weighted = i % 3 == 0
